@@ -37,6 +37,7 @@ def decodeOp (op : String) (b : Bytes) : String :=
   | "parselist" => showRes (fun (n : Nat) => toString n) (parseList F (2 * b.length + 2) b)
   | "parsemsg" => showRes (fun (n : Nat) => toString n) (parseMessage F (2 * b.length + 2) b)
   | "walk" => walk F (b.length + 1) b
+  | "typed" => "ok"     -- Go-side oracle only (typed list wrappers): no panic, sizes and views inside the input
   | _ => "bad-op"
 
 def encodeOp (op : String) (arg : String) : String :=
